@@ -5,7 +5,7 @@ import itertools
 
 from ..core import Prop, Violation
 from .. import cffl
-from ..cffl import GATES, VERDICTS, Ob, cfg_line, BUDGETS, BIG_ADVANCES, DAY, real_prompt
+from ..cffl import GATES, VERDICTS, Ob, cfg_line, BUDGETS, BIG_ADVANCES, DAY, real_prompt, EXC_TOKENS
 from ..extract import e2, py2lean_breaker
 from .. import core
 
@@ -15,7 +15,14 @@ TMO = 60_000_000
 # outcome alphabet of the property text: (executor verdict, assessor verdict) under the default AND logic
 OUTCOME = {"succ": ("EXECUTE", "PERMIT"), "block": ("EXECUTE", "BLOCK"), "skip": ("BLOCK", "PERMIT"),
            "efail": ("FAILURE", "PERMIT"), "exc": ("exc", "PERMIT"), "yexc": ("EXECUTE", "exc"),
-           "mismatch": ("DEFER", "PERMIT")}
+           "mismatch": ("DEFER", "PERMIT"),
+           # agent exceptions of other kinds: KeyError without arguments, one whose __repr__ raises, one whose __str__
+           # raises (the exception cannot be rendered), and - not an `Exception` at all - a BaseException
+           "excK": ("excK", "PERMIT"), "excR": ("excR", "PERMIT"), "excS": ("excS", "PERMIT"),
+           "yexcS": ("EXECUTE", "excS"), "yexcK": ("PERMIT", "excK"), "excB": ("excB", "PERMIT"),
+           "yexcB": ("EXECUTE", "excB")}
+RAISED = ("exc", "excS")          # what the recorder reports for an agent that raised an Exception (renderable / not)
+HOOKS = ["none", "ok", "raise"]
 
 
 def outcome_class(gate, z, y, o: Ob):
@@ -27,8 +34,8 @@ def outcome_class(gate, z, y, o: Ob):
               does not say; whether it counted is read off the failure counter."""
     if z is None:
         return "open"          # no agent consulted although the request was let in: judged by `admitted_request_consults_agents`
-    if z == "exc" or y == "exc":
-        return "fail"
+    if z in RAISED or y in RAISED:
+        return "fail"          # "agent exception", whatever its class and whether or not it can be rendered as text
     if not o.blocked:
         return "succ"
     if z == "FAILURE" and y != "BLOCK":
@@ -58,7 +65,12 @@ class C08(Prop):
         "the assessor PERMITs (the request then passes and is a success): c08_executor_failure_outcome",
         "the clock is the module-level `datetime` of operon_ai.topology.loops (substituted by a virtual clock); "
         "time never runs backwards (the code reads naive local datetime.now(): a DST change shifts the wall-clock reading)",
-        "single caller (no concurrent run() calls); on_block / on_permit callbacks are None",
+        "single caller (no concurrent run() calls); on_block / on_permit callbacks may be set, re-assigned and may raise "
+        "(they run after the breaker update; a raising callback makes run() raise after the outcome was counted) but do not "
+        "call back into the loop",
+        "an agent's BaseException that is not an Exception (KeyboardInterrupt, SystemExit, CancelledError) is not an 'agent "
+        "exception' in the sense of the text: run() lets it through uncounted (model: kind `aborted`; the oracle reads off "
+        "the counter whether it counted)",
         "energy is spent only by agent invocations (stub agents consume a fixed cost from the shared ATP_Store)",
     ]
     trusted_modelled = ["modelled, not verified: CoherentFeedForwardLoop.run/_check_circuit/_record_success/"
@@ -95,7 +107,7 @@ class C08(Prop):
                 z, y = OUTCOME[ev] if isinstance(ev, str) and ev in OUTCOME else ev.split("/")
                 fresh += 1
                 lines.append(f"run {fresh} {z} {y}")
-                if "exc" not in (z, y):
+                if not (z.startswith("exc") or y.startswith("exc")):
                     good.append(fresh)
         return {"lines": lines, "note": note}
 
@@ -104,15 +116,17 @@ class C08(Prop):
         thr = rng.choice([1, 1, 2, 3, 4])
         tmo = rng.choice([TMO, TMO, 1_000_000, 2, 1])
         gate = "and" if rng.random() < 0.7 else rng.choice(["unanimous", "or", "executor_priority", "assessor_priority"])
-        fail = ["efail", "exc", "yexc"] if gate != "or" else ["exc", "yexc", "FAILURE/DEFER"]
+        fail = ["efail", "exc", "yexc", "excS", "excK", "yexcS"] if gate != "or" else ["exc", "yexc", "FAILURE/DEFER", "excS", "excR"]
         ev = [rng.choice(["succ", "block"])] if rng.random() < 0.5 else []
+        if rng.random() < 0.3:      # callbacks set on the live loop (they may raise): the outcome counts all the same
+            ev = [("set", "onblock", rng.choice(HOOKS)), ("set", "onpermit", rng.choice(HOOKS))] + ev
         if rng.random() < 0.5:
             ev.append("succ")                       # something to hit in the cache later
         ev += [rng.choice(fail) for _ in range(thr)]
         if rng.random() < 0.25:
             # the first request after trip + timeout is a cache hit of an earlier success (no agent is consulted, so
             # it is not a probe), then the real probe fails
-            ev = ["succ"] + [rng.choice(fail) for _ in range(thr)]
+            ev = [e for e in ev if isinstance(e, tuple)] + ["succ"] + [rng.choice(fail) for _ in range(thr)]
             ev += [("adv", rng.choice([tmo, tmo + 1, tmo + DAY, DAY + 10_000_000])), "hit", rng.choice(fail), "succ"]
             return self._history(ev, thr, tmo, gate, True, True, "cache hit as first request after the timeout")
         for _ in range(rng.choice([1, 2, 3])):
@@ -150,7 +164,7 @@ class C08(Prop):
         return {"lines": lines, "note": "built-in agents"}
 
     def generate(self, rng, tier, n):
-        names = ["succ", "block", "skip", "efail", "exc", "yexc", "mismatch", "hit"]
+        names = ["succ", "block", "skip", "efail", "exc", "yexc", "mismatch", "hit", "excS", "excK", "excR", "yexcS", "excB", "yexcB"]
         for i in range(n):
             if i % 3 == 0:
                 yield self._probe_scenario(rng)
@@ -164,13 +178,16 @@ class C08(Prop):
             breaker = rng.random() < 0.88
             cache = rng.random() < 0.8
             ev = []
+            if rng.random() < 0.25:
+                ev = [("set", "onblock", rng.choice(HOOKS)), ("set", "onpermit", rng.choice(HOOKS))]
             for _ in range(rng.choice([3, 5, 6, 8, 8, 10, 14])):
                 u = rng.random()
                 if u < 0.62:
                     if rng.random() < 0.75:
-                        ev.append(rng.choice(names + ["efail", "exc", "efail"]))
+                        ev.append(rng.choice(names + ["efail", "exc", "efail", "succ", "block"]))
                     else:
-                        ev.append(rng.choice(VERDICTS + ["exc", "weird"]) + "/" + rng.choice(VERDICTS + ["exc", "weird"]))
+                        vs = VERDICTS + ["exc", "weird"] + list(EXC_TOKENS)
+                        ev.append(rng.choice(vs) + "/" + rng.choice(vs))
                 elif u < 0.92:
                     t = abs(tmo)
                     ev.append(("adv", rng.choice([1, max(t - 1, 0), t, t + 1, t // 2, 1_000_000, 59_000_000, 2 * t + 3]
@@ -180,8 +197,9 @@ class C08(Prop):
                 elif u < 0.98:
                     ev.append("clear")
                 else:   # a public attribute of the live loop is re-assigned (the breaker's own on/off switch included)
-                    k = rng.choice(["thr", "thr", "tmo", "tmo", "ttl", "cache", "agents", "gate", "breaker", "breaker"])
-                    ev.append(("set", k, {"breaker": rng.choice([0, 0, 1]), "thr": rng.choice([1, 2, 3, 5]), "tmo": rng.choice([TMO, 1_000_000, 1, 2 * TMO]),
+                    k = rng.choice(["thr", "thr", "tmo", "tmo", "ttl", "cache", "agents", "gate", "breaker", "breaker",
+                                    "onblock", "onblock", "onpermit"])
+                    ev.append(("set", k, {"onblock": rng.choice(HOOKS), "onpermit": rng.choice(HOOKS), "breaker": rng.choice([0, 0, 1]), "thr": rng.choice([1, 2, 3, 5]), "tmo": rng.choice([TMO, 1_000_000, 1, 2 * TMO]),
                                           "ttl": rng.choice([TTL, 1, 0]), "cache": rng.choice([0, 1]), "agents": 0,
                                           "gate": rng.choice(GATES)}[k]))
             c = self._history(ev, thr, tmo, gate, breaker, cache, "random",
@@ -219,7 +237,23 @@ class C08(Prop):
             for budget in BUDGETS:
                 big.append(self._history(["succ", "succ", "succ", ("adv", TMO), "succ", "block"], thr, budget=budget,
                                          note="the shared store runs dry: the stubs' FAILURE answers trip the breaker"))
-        return [{"name": "trip, advance by 1 day / 7 days / 400 days (and 1 us or a few seconds around them), probe; "
+        hooks = []
+        for thr in (1, 2, 3):
+            for hb, hp in (("none", "none"), ("raise", "none"), ("ok", "raise"), ("raise", "raise"), ("ok", "ok")):
+                for kind in ("exc", "excS", "excK", "excR", "yexcS", "efail", "yexc"):
+                    for probe in ("succ", kind):
+                        hooks.append(self._history(
+                            [("set", "onblock", hb), ("set", "onpermit", hp), "succ"] + [kind] * thr
+                            + ["succ", ("adv", TMO), probe, "succ", "block"], thr,
+                            note="agent exceptions of every kind (renderable or not) x callbacks that return / raise: "
+                                 "threshold consecutive failures open the breaker, whatever the callbacks do"))
+            for kind in ("excB", "yexcB"):
+                hooks.append(self._history(["succ"] + [kind] * thr + ["succ", "efail"], thr,
+                                           note="an agent's BaseException passes through run()"))
+        return [{"name": "agent exception kinds {RuntimeError, KeyError(), __repr__ raises, __str__ raises; executor / "
+                         "assessor} and executor FAILURE x on_block / on_permit callbacks {unset, returns, raises} x thresholds "
+                         "1..3: trip, isolate, probe after the timeout", "cases": hooks},
+                {"name": "trip, advance by 1 day / 7 days / 400 days (and 1 us or a few seconds around them), probe; "
                          "9 small budgets x thresholds 1..3", "cases": big},
                 {"name": f"all histories of length <= {depth} over {{success, intentional block, executor failure, "
                          f"agent exception, cache hit, advance timeout-1us, advance 1us, manual reset}} for "
@@ -286,6 +320,10 @@ class C08(Prop):
                         last_fail_at, since_clear, streak = o.last_failure, o.failures, 0
             elif t[0] == "run" and len(t) == 4:
                 z, y = actual[idx]      # the verdicts actually returned on this request (None = not consulted)
+                agent_raised = z in RAISED or y in RAISED
+                # nothing came back and no result was produced (a raising CALLBACK is different: the request was handled
+                # completely, the callback got the result - `o` carries it - and the outcome counts like any other)
+                no_reply = o.raised is not None and not o.has_result
                 calls = o.ecalls + o.acalls - p_calls
                 spent = o.spent - p_spent
                 opened_now = p_state == "closed" and o.state != "closed"
@@ -293,7 +331,7 @@ class C08(Prop):
                     # with the breaker disabled agents are always consulted (unless the cache answers)
                     if o.action == "CIRCUIT_OPEN":
                         V("disabled_never_circuit_open", "agents consulted", raw, idx)
-                    elif o.raised is None and not o.cached and calls == 0:
+                    elif not no_reply and not o.cached and calls == 0:
                         V("disabled_agents_consulted", "calls>0", raw, idx)
                     prev = o
                     continue
@@ -316,7 +354,16 @@ class C08(Prop):
                         V("circuit_open_only_when_open", f"state before was {p_state}", raw, idx)
                     prev = o
                     continue
-                if o.raised is not None or o.cached:
+                if "excB" in (z, y):
+                    # an agent's BaseException (not an `Exception`): the text's "agent exception" does not clearly include
+                    # it; whether it counted is read off the loop and the bookkeeping follows
+                    if o.failures > p_fail or (probing and o.state == "open"):
+                        since_clear += 1
+                        last_fail_at = now
+                    streak = 0
+                    prev = o
+                    continue
+                if (no_reply and not agent_raised) or o.cached:
                     # no agent was consulted, so this is neither a success nor a failure and in particular not a probe:
                     # it moves no failure field and cannot close (or open) the breaker; the only state change allowed
                     # is the admission open -> half_open
